@@ -133,3 +133,12 @@ reg("C14", "sched", "model_checking",
     "run_forever returns, on_close exactly once and last with the server's code/reason, return value = error reported, sockets and ping thread gone at return, second run behaves like a fresh object.",
     "Trusted: scheduler + simulated kernel (mc/sched.py, mc/tnet.py). Known findings: close() from another thread while the opening handshake is in progress (see known_findings.jsonl).",
     "DESIGN.md section 6 C14")
+
+reg("C15", "sched", "model_checking",
+    "enumeration of connection-outcome sequences x systematic schedule exploration (preemption bounding; closer thread at every scheduling point) of the real run_forever with the built-in loop and with an external rel-style dispatcher, in virtual time",
+    "All sequences of up to 2 (quick) / 3 (thorough) abnormal outcomes (refused, rejected handshake, EOF, reset, silent peer) followed by a terminal one (server close, "
+    "close() in on_message, close() in on_open/on_reconnect) x intervals {1,5} x on_reconnect given/not x ping thread: next attempt exactly one interval after the loss, "
+    "on_reconnect/on_open and messages on every established connection, no on_close in between, earlier transports closed and at most one ping thread at every attempt, "
+    "no attempt after a server close frame or after close() returned (second thread preempting everywhere, incl. the reconnect sleep).",
+    "Trusted: scheduler, simulated network, and the fake external dispatcher (rel/pyevent contract) in mc/props/c15.py.",
+    "DESIGN.md section 6 C15")
